@@ -170,6 +170,13 @@ def check_round(case, state):
         require(close(p3c.real, psi.real[idx[:m]], 1e-12, 1e-300) and close(p3c.imag, psi.imag[idx[:m]], 1e-12, 1e-300), "callform:rank3",
                 "psi of a rank-3 batch differs from the corresponding entries of psi(space)")
         require(close(state.probability(v3).double().reshape(-1), prob[idx[:m]], 1e-12), "callform:rank3-prob", "probability of a rank-3 batch differs")
+    # sample tensors of other dtypes (what torch.bernoulli / a data loader / an index computation hands over): same values
+    for dt in (torch.float32, torch.int64, torch.uint8):
+        alt = sub.to(dt)
+        pa = R.lib_to_c(state.psi(alt))
+        require(pa.shape == (len(idx),) and close(pa.real, psi.real[idx], 1e-12, 1e-300) and close(pa.imag, psi.imag[idx], 1e-12, 1e-300),
+                "callform:dtype", f"psi of a {dt} sample tensor differs from psi of the same states in float64")
+        require(close(state.probability(alt).double(), prob[idx], 1e-12), "callform:dtype-prob", f"probability of a {dt} sample tensor differs")
     k = case["row"]
     v1 = space[k]
     p1 = state.psi(v1)
